@@ -84,6 +84,9 @@ class SimExecutor(Executor):
             t.payload_exc = e
 
     def _can_start(self, t):
+        fs = self.sim.fs
+        if fs is not None and fs.dead:
+            return False  # nobody feeds queued work to the pool after the parent died
         if self.running >= self.workers:
             return False
         return self.start == "any" or self.queue[0] is t
